@@ -15,11 +15,23 @@ Extracted with Python's `ast` only (sqlframe is never imported):
   how `between` takes its bounds, how `endswith` names its function;
 * `functions.when` / `Column.when` / `Column.otherwise`: operands un-aliased, receiver copied.
 
+and  -> Gen/ColumnLit.lean  (how a plain Python value becomes a literal):
+
+* `Column._lit` and `functions.lit` as ordered decision chains `[(guard, action)] + fallthrough`: each guard and each
+  branch body must be one of the source shapes listed in LIT_GUARDS / LIT_BODIES (isinstance tests on Row / list /
+  set / tuple / dict / datetime / str, the NaN and infinity tests; struct / array / tuple / map constructions, a cast
+  of a *constant* string (or of one of two constants chosen by `value > 0`) to a named type, `exp.convert(value)`, `Literal.string(value)`, `Column(value)`) — a new
+  branch, a changed condition or a changed spelling of the value is Untranslatable;
+* `Column.__init__`'s three-way dispatch (Column / non-str value -> `_lit` / str -> parsed SQL text);
+* the `@meta` decorator's automatic-alias condition and whether `lit` / `when` carry the decorator;
+* the coercion every method applies to a plain Python operand (`_lit`, `_lit`-for-str-else-`Column`, `lit`).
+
 Anything that has left these shapes raises Untranslatable (never a default, never a guess).
 """
 from __future__ import annotations
 
 import ast
+import re
 import typing as t
 
 from translate import HEADER, Untranslatable, find_class, find_func, lean_ident, lean_str, parse
@@ -731,4 +743,269 @@ def gen_column_ops(repo: str) -> str:
     return "\n".join(o) + "\n"
 
 
-GENERATORS = {"ColumnOps": gen_column_ops}
+# ------------------------------------------------------------------------------------------------
+# literal conversion:  Column._lit  /  functions.lit  /  Column.__init__  /  the @meta decorator
+#   -> Gen/ColumnLit.lean
+# ------------------------------------------------------------------------------------------------
+
+OBL = "Gen.ColumnLit"
+
+
+def _badl(what: str, why: str) -> Untranslatable:
+    return Untranslatable(f"{OBL}.{what}", why)
+
+
+# guards the model understands, by their exact source text (`value` is the parameter)
+LIT_GUARDS = {
+    "isinstance(value, Row)": "isRow",
+    "isinstance(value, (list, set))": "isListOrSet",
+    "isinstance(value, tuple)": "isTuple",
+    "isinstance(value, dict)": "isDict",
+    "value is not None and isinstance(value, float) and math.isnan(value)": "isFloatNan",
+    "isinstance(value, float) and math.isnan(value)": "isFloatNan",
+    "value is not None and isinstance(value, float) and math.isinf(value)": "isFloatInf",
+    "isinstance(value, float) and math.isinf(value)": "isFloatInf",
+    "isinstance(value, float) and value in {float('inf'), float('-inf')}": "isFloatInf",
+    "isinstance(value, datetime.datetime)": "isDatetime",
+    "isinstance(value, str)": "isStr",
+}
+
+# branch bodies the model understands, by their exact source text
+_ROW_BODY = (
+    "columns = [exp.PropertyEQ(this=exp.to_identifier(k).transform(_BaseSession().input_dialect.normalize_identifier, copy=False), "
+    "expression=cls._lit(v).expression) for k, v in value.asDict().items()]\n"
+    "return cls(exp.Struct(expressions=columns))"
+)
+_DATETIME_BODY = (
+    "if value.tzinfo is None:\n"
+    "    value = value.isoformat(sep=' ')\n"
+    "    return cls(exp.cast(exp.Literal.string(value), exp.DataType.Type.TIMESTAMP))\n"
+    "else:\n"
+    "    value = value.astimezone(datetime.timezone.utc).isoformat(sep=' ')\n"
+    "    return cls(exp.cast(exp.Literal.string(value), exp.DataType.Type.TIMESTAMPTZ))"
+)
+LIT_BODIES = {
+    _ROW_BODY: ("structOfRow",),
+    "return cls(exp.Array(expressions=[cls._lit(x).expression for x in value]))": ("arrayOf",),
+    "return cls(exp.Tuple(expressions=[cls._lit(x).expression for x in value]))": ("tupleOf",),
+    "return cls(exp.VarMap(keys=exp.Array(expressions=[cls._lit(k).expression for k in value.keys()]), "
+    "values=exp.Array(expressions=[cls._lit(v).expression for v in value.values()])))": ("varMapOf",),
+    _DATETIME_BODY: ("datetimeCast",),
+    "return cls(exp.convert(value))": ("convert",),
+    "return Column(expression.Literal.string(value))": ("stringOfValue",),
+    "return Column(expression.Literal.string(str(value)))": ("stringOfStr",),
+    "return Column(value)": ("columnInit",),
+}
+_CAST_CONST = re.compile(r"^return cls\(exp\.cast\(exp\.Literal\.string\('([A-Za-z+\-]*)'\), exp\.DataType\.build\('([a-z]+)'\)\)\)$")
+# a cast of one of two constant strings, chosen by the sign of the value
+_CAST_BY_SIGN = re.compile(
+    r"^return cls\(exp\.cast\(exp\.Literal\.string\('([A-Za-z+\-]*)' if value > 0 else '([A-Za-z+\-]*)'\), exp\.DataType\.build\('([a-z]+)'\)\)\)$"
+)
+
+
+def _lit_action(stmts: t.List[ast.stmt], what: str) -> t.Tuple[str, ...]:
+    src = "\n".join(ast.unparse(s) for s in stmts)
+    if src in LIT_BODIES:
+        return LIT_BODIES[src]
+    m = _CAST_CONST.match(src)
+    if m:
+        return ("castStrConst", m.group(1), m.group(2))
+    m = _CAST_BY_SIGN.match(src)
+    if m:
+        return ("castStrBySign", m.group(1), m.group(2), m.group(3))
+    raise _badl(what, f"a branch returns something the model does not understand: {src[:300]!r}")
+
+
+def _decision_chain(fn: ast.FunctionDef, what: str) -> t.Tuple[t.List[t.Tuple[str, t.Tuple[str, ...]]], t.Tuple[str, ...]]:
+    """a body of the form  (if G: B [elif G: B]*)*  return E   with every B returning  ->  ([(guard, action)], fallthrough)"""
+    body = _body(fn)
+    if not body:
+        raise _badl(what, "empty body")
+    chain: t.List[t.Tuple[str, t.Tuple[str, ...]]] = []
+
+    def guard(test: ast.expr) -> str:
+        src = ast.unparse(test)
+        if src not in LIT_GUARDS:
+            raise _badl(what, f"a branch is taken under a condition the model does not understand: {src[:300]!r}")
+        return LIT_GUARDS[src]
+
+    for st in body[:-1]:
+        node: t.Optional[ast.stmt] = st
+        while node is not None:
+            if not isinstance(node, ast.If):
+                raise _badl(what, f"unsupported statement {ast.unparse(node)[:200]!r}")
+            chain.append((guard(node.test), _lit_action(node.body, what)))
+            if not node.orelse:
+                node = None
+            elif len(node.orelse) == 1 and isinstance(node.orelse[0], ast.If):
+                node = node.orelse[0]
+            else:
+                raise _badl(what, f"an `else` branch that is not an `elif`: {ast.unparse(node)[:200]!r}")
+    return chain, _lit_action([body[-1]], what)
+
+
+def _params(fn: ast.FunctionDef) -> t.List[str]:
+    return [a.arg for a in fn.args.args]
+
+
+def _init_chain(cls: ast.ClassDef) -> t.List[t.Tuple[str, str]]:
+    what = "Column.__init__"
+    fn = find_func(cls.body, "__init__")
+    if _params(fn) != ["self", "expression"]:
+        raise _badl(what, f"unexpected parameters {_params(fn)}")
+    src = [ast.unparse(s) for s in _body(fn)]
+    want = [
+        "if isinstance(expression, Column):\n"
+        "    expression = expression.expression\n"
+        "elif expression is None or not isinstance(expression, (str, exp.Expression)):\n"
+        "    expression = self._lit(expression).expression\n"
+        "elif not isinstance(expression, exp.Column):\n"
+        "    expression = sqlglot.maybe_parse(expression, dialect=_BaseSession().input_dialect).transform(_BaseSession().input_dialect.normalize_identifier, copy=False)",
+        "if expression is None:\n    raise ValueError(f'Could not parse {expression}')",
+        "self.expression: exp.Expression = expression",
+    ]
+    if src != want:
+        raise _badl(what, f"the constructor's dispatch changed: {src!r}"[:600])
+    return [("isColumn", "takeExpression"), ("isNoneOrNotStrOrExpr", "viaLit"), ("isNotExpColumn", "parseSql")]
+
+
+def _meta_decorator(repo: str) -> bool:
+    """func_metadata's wrapper aliases a result iff its column_expression is an exp.Func and it carries no alias"""
+    what = "decorators.func_metadata"
+    mod = parse(repo, "sqlframe/base/decorators.py")
+    fn = find_func(mod.body, "func_metadata")
+    ifs = [n for n in ast.walk(fn) if isinstance(n, ast.If)]
+    want = (
+        "isinstance(result, Column) and isinstance(result.column_expression, exp.Func) and "
+        "(not isinstance(result.expression, exp.Alias)) and (func.__name__ not in funcs_to_not_auto_alias)"
+    )
+    tests = [ast.unparse(i.test) for i in ifs]
+    if want not in tests:
+        raise _badl(what, f"the automatic-alias condition changed: {tests[:1]!r}"[:400])
+    top = next(i for i in ifs if ast.unparse(i.test) == want)
+    rets = [n for n in ast.walk(top) if isinstance(n, ast.Return)]
+    if len(rets) != 1 or not ast.unparse(rets[0]).startswith("return result.alias("):
+        raise _badl(what, "the automatic alias is no longer `result.alias(...)`")
+    return True
+
+
+def _has_meta(fn: ast.FunctionDef) -> bool:
+    for d in fn.decorator_list:
+        if isinstance(d, ast.Call) and isinstance(d.func, ast.Name) and d.func.id == "meta":
+            return True
+    return False
+
+
+def _coercions(repo: str, cls: ast.ClassDef) -> t.Dict[str, str]:
+    """how each method turns a plain Python operand into an expression (exact source shapes only)"""
+    out: t.Dict[str, str] = {}
+    for h in ("binary_op", "inverse_binary_op"):
+        s0 = _body(find_func(cls.body, h))[0]
+        if ast.unparse(s0) != "other = self._lit(other) if isinstance(other, str) else Column(other)":
+            raise _badl(h, f"operand coercion changed: {ast.unparse(s0)!r}")
+        out[h] = "strRawElseInit"
+    # isin / like / ilike / rlike / between / substr / startswith / endswith are checked shape by shape in _simple_methods
+    m = _simple_methods(cls)
+    assert m
+    for name in ("isin", "like", "rlike", "between", "substr", "startswith", "endswith"):
+        out[name] = "rawLit"
+    w = _when(repo, cls)
+    assert w
+    out["when"] = "litFn"
+    out["otherwise"] = "litFn"
+    return out
+
+
+def extract_lit(repo: str) -> t.Dict[str, t.Any]:
+    mod = parse(repo, "sqlframe/base/column.py")
+    cls = find_class(mod, "Column")
+    fn = find_func(cls.body, "_lit")
+    if _params(fn) != ["cls", "value"]:
+        raise _badl("Column._lit", f"unexpected parameters {_params(fn)}")
+    chain, fall = _decision_chain(fn, "Column._lit")
+    fmod = parse(repo, "sqlframe/base/functions.py")
+    lf = find_func(fmod.body, "lit")
+    if _params(lf) != ["value"]:
+        raise _badl("functions.lit", f"unexpected parameters {_params(lf)}")
+    fchain, ffall = _decision_chain(lf, "functions.lit")
+    wf = find_func(fmod.body, "when")
+    return {
+        "litChain": chain,
+        "litFallthrough": fall,
+        "litFnChain": fchain,
+        "litFnFallthrough": ffall,
+        "litFnHasMeta": _has_meta(lf),
+        "whenHasMeta": _has_meta(wf),
+        "initChain": _init_chain(cls),
+        "metaAliasesFunc": _meta_decorator(repo),
+        "coerce": _coercions(repo, cls),
+    }
+
+
+LIT_GUARD_CTORS = ["isRow", "isListOrSet", "isTuple", "isDict", "isFloatNan", "isFloatInf", "isDatetime", "isStr"]
+
+
+def _lean_action(a: t.Tuple[str, ...]) -> str:
+    if a[0] == "castStrConst":
+        return f"(.castStrConst {lean_str(a[1])} {lean_str(a[2])})"
+    if a[0] == "castStrBySign":
+        return f"(.castStrBySign {lean_str(a[1])} {lean_str(a[2])} {lean_str(a[3])})"
+    return "." + a[0]
+
+
+def gen_column_lit(repo: str) -> str:
+    d = extract_lit(repo)
+    o: t.List[str] = [HEADER.rstrip("\n")]
+    o.append("-- source: sqlframe/base/column.py (Column._lit, Column.__init__), sqlframe/base/functions.py (lit), sqlframe/base/decorators.py   translator: tools/gen_c05.py")
+    o.append("namespace Sqlframe.Gen")
+    o.append("")
+    o.append("/-- the condition a branch of a literal decision chain is taken under -/")
+    o.append("inductive LitGuard | " + " | ".join(LIT_GUARD_CTORS))
+    o.append("  deriving DecidableEq, Repr")
+    o.append("")
+    o.append("/-- what a branch returns -/")
+    o.append("inductive LitAction")
+    o.append("  | structOfRow | arrayOf | tupleOf | varMapOf | datetimeCast")
+    o.append("  | castStrConst (s : String) (ty : String)  -- cls(exp.cast(exp.Literal.string(s), exp.DataType.build(ty)))")
+    o.append("  | castStrBySign (pos neg : String) (ty : String)  -- cls(exp.cast(exp.Literal.string(pos if value > 0 else neg), exp.DataType.build(ty)))")
+    o.append("  | convert          -- cls(exp.convert(value))")
+    o.append("  | stringOfValue    -- Column(expression.Literal.string(value))")
+    o.append("  | stringOfStr      -- Column(expression.Literal.string(str(value)))")
+    o.append("  | columnInit       -- Column(value)")
+    o.append("  deriving DecidableEq, Repr")
+    o.append("")
+
+    def chain(xs: t.List[t.Tuple[str, t.Tuple[str, ...]]]) -> str:
+        return "[" + ", ".join(f"(.{g}, {_lean_action(a)})" for g, a in xs) + "]"
+
+    o.append("/-- `Column._lit(value)`: the first branch whose guard holds decides; otherwise the last `return` -/")
+    o.append(f"def litChain : List (LitGuard × LitAction) := {chain(d['litChain'])}")
+    o.append(f"def litFallthrough : LitAction := {_lean_action(d['litFallthrough'])}")
+    o.append("/-- `functions.lit(value)` -/")
+    o.append(f"def litFnChain : List (LitGuard × LitAction) := {chain(d['litFnChain'])}")
+    o.append(f"def litFnFallthrough : LitAction := {_lean_action(d['litFnFallthrough'])}")
+    o.append("/-- `lit` / `when` are decorated with `@meta()` -/")
+    o.append(f"def litFnHasMeta : Bool := {_b(d['litFnHasMeta'])}")
+    o.append(f"def whenHasMeta : Bool := {_b(d['whenHasMeta'])}")
+    o.append("/-- the decorator aliases a result whose `column_expression` is an `exp.Func` and that carries no alias -/")
+    o.append(f"def metaAliasesFunc : Bool := {_b(d['metaAliasesFunc'])}")
+    o.append("")
+    o.append("inductive InitGuard | isColumn | isNoneOrNotStrOrExpr | isNotExpColumn")
+    o.append("  deriving DecidableEq, Repr")
+    o.append("inductive InitAction | takeExpression | viaLit | parseSql")
+    o.append("  deriving DecidableEq, Repr")
+    o.append("/-- `Column.__init__(expression)` -/")
+    o.append("def initChain : List (InitGuard × InitAction) := [" + ", ".join(f"(.{g}, .{a})" for g, a in d["initChain"]) + "]")
+    o.append("")
+    o.append("/-- how a method turns a plain Python operand into an expression:")
+    o.append("    `rawLit` = `self._lit(v)`, `strRawElseInit` = `self._lit(v) if isinstance(v, str) else Column(v)`, `litFn` = `lit(v)` -/")
+    o.append("inductive Coerce | rawLit | strRawElseInit | litFn")
+    o.append("  deriving DecidableEq, Repr")
+    for k, v in d["coerce"].items():
+        o.append(f"def coerce_{lean_ident(k)} : Coerce := .{v}")
+    o.append("")
+    o.append("end Sqlframe.Gen")
+    return "\n".join(o) + "\n"
+
+
+GENERATORS = {"ColumnOps": gen_column_ops, "ColumnLit": gen_column_lit}
